@@ -596,7 +596,11 @@ class BuiltinMixin(object):
         ref, v = args
         o = st.get(ref)
         if o.items is None:
-            raise Unsupported("append to symbolic list")
+            old = o.seq
+            n = old.n
+            st.set(ref, PyList(seq=SeqV(z3.simplify(n + 1), lambda k, old=old, n=n, v=v: self.ite_value(k == n, v, old.get(k)))))
+            yield st, None
+            return
         st.set(ref, PyList(items=o.items + [v]))
         yield st, None
 
